@@ -12,6 +12,8 @@
    What is not modelled: the spans stored in ParserNode (never part of the Ok result; Position::span
    cannot panic here, all positions belong to one input) and `validator::validate_ast`, which
    consume_rules runs between consume_rules_with_spans and convert_rule (property C06).
+   The record [fixes] selects between the code as shipped and the code with fixes/C07-1, fixes/C07-2
+   (= fixes/C09-3), fixes/C09-1, fixes/C09-2 applied (the driver probes the tree and passes the flags).
    Rust `Expr::Range(String, String)` is represented by Peg.Ast's `ERange lo hi` through the first
    char of each string (the same abstraction the harness uses, gram.rs `first_char`). *)
 From Coq Require Import List Arith NArith ZArith Bool String.
@@ -25,6 +27,8 @@ Inductive cerr :=
 | ENumOverflow          (* "number cannot overflow u32" *)
 | EZeroRepeat           (* "cannot repeat 0 times" *)
 | EPushLiteralFeature   (* "PUSH_LITERAL requires feature grammar-extras" *)
+| EInvalidLiteral       (* "incorrect .. literal: escape is not a valid character" (fixes/C09-1) *)
+| EPeekOverflow         (* "number cannot overflow i32" (fixes/C09-2) *)
 | ESyntax.              (* the meta-grammar does not match the text (only from [read]) *)
 
 Inductive cres (A : Type) :=
@@ -49,7 +53,18 @@ Definition is_rule (r : mrule) (t : mtree) : bool := mrule_eqb (m_rule t) r.
 (* first char of a String (Expr::Range holds one-char strings) *)
 Definition range_cp (s : list byte) : N := match decode1 s with Some (c, _) => c | None => 0%N end.
 
+(* which repairs the tree has *)
+Record fixes := {
+  fix_insens : bool;       (* fixes/C07-1: the literal of ^".." is read from the inner `string` pair *)
+  fix_bar : bool;          (* fixes/C07-2 = C09-3: consume_expr itself skips a leading choice_operator *)
+  fix_literal_err : bool;  (* fixes/C09-1: an escape that is no character is an Err, not a panic *)
+  fix_peek_err : bool      (* fixes/C09-2: a PEEK index outside i32 is an Err, not a panic *)
+}.
+Definition shipped : fixes := {| fix_insens := false; fix_bar := false; fix_literal_err := false; fix_peek_err := false |}.
+Definition repaired : fixes := {| fix_insens := true; fix_bar := true; fix_literal_err := false; fix_peek_err := false |}.
+
 Section Consume.
+Variable fx : fixes.
 Variable extras : bool.            (* cfg(feature = "grammar-extras") *)
 Variable w : list byte.            (* the grammar text *)
 
@@ -105,39 +120,49 @@ Fixpoint postfix_fold (node : expr) (ps : list mtree) : cres expr :=
 (* unescape(pair.as_str()).expect(..) then string[a..string.len() - 1] *)
 Definition literal (t : mtree) (a : nat) (k : list byte -> expr) : cres expr :=
   match unescape (text w t) with
-  | None => CPanic                                         (* "incorrect string literal" / "incorrect char literal" *)
+  | None => if fix_literal_err fx then err_at EInvalidLiteral t
+            else CPanic                                    (* .expect("incorrect string literal" / "incorrect char literal") *)
   | Some s => match str_slice s a with Some x => COk (k x) | None => CPanic end
+  end.
+
+(* pair.as_str().parse::<i32>().unwrap()   (fixes/C09-2: parse_peek_index(&pair)?) *)
+Definition peek_index (t : mtree) : cres Z :=
+  match parse_i32 (text w t) with
+  | Some z => COk z
+  | None => if fix_peek_err fx then err_at EPeekOverflow t else CPanic
   end.
 
 Definition peek_slice (pair : mtree) : cres expr :=
   match m_children pair with
   | _ :: ps :: r1 =>                                       (* opening_brack ; `..` or integer *)
-    let start : option (Z * list mtree) :=
+    let start : cres (Z * list mtree) :=
       match m_rule ps with
-      | MRangeOperator => Some (0%Z, r1)
+      | MRangeOperator => COk (0%Z, r1)
       | MInteger =>
         match r1 with
-        | _ :: r2 => match parse_i32 (text w ps) with Some z => Some (z, r2) | None => None end
-        | [] => None
+        | _ :: r2 => cmap (fun z => (z, r2)) (peek_index ps)   (* pairs.next().unwrap() is the `..` *)
+        | [] => CPanic
         end
-      | _ => None                                          (* unreachable!("peek start") *)
+      | _ => CPanic                                        (* unreachable!("peek start") *)
       end in
     match start with
-    | None => CPanic
-    | Some (st, r) =>
+    | COk (st, r) =>
       match r with
       | pe :: r' =>                                        (* integer or `]` *)
         match m_rule pe with
         | MClosingBrack => COk (EPeekSlice st None)
         | MInteger =>
           match r' with
-          | _ :: _ => match parse_i32 (text w pe) with Some z => COk (EPeekSlice st (Some z)) | None => CPanic end
+          | _ :: _ => cmap (fun z => EPeekSlice st (Some z)) (peek_index pe)
           | [] => CPanic
           end
         | _ => CPanic                                      (* unreachable!("peek end") *)
         end
       | [] => CPanic
       end
+    | CErr k s e => CErr k s e
+    | CPanic => CPanic
+    | CFuel => CFuel
     end
   | _ => CPanic
   end.
@@ -145,7 +170,7 @@ Definition peek_slice (pair : mtree) : cres expr :=
 (* the `other_rule` arm of unaries, before the postfix fold; [rec] = consume_expr *)
 Definition terminal (rec : list mtree -> cres expr) (pair : mtree) : cres expr :=
   match m_rule pair with
-  | MExpression => rec (m_children pair)                   (* NB: a leading choice_operator is not skipped here *)
+  | MExpression => rec (m_children pair)                   (* NB: as shipped, a leading choice_operator is not skipped here *)
   | MPush =>
     match m_children pair with
     | _ :: e :: _ => cmap EPush (rec (m_children e))
@@ -161,7 +186,13 @@ Definition terminal (rec : list mtree -> cres expr) (pair : mtree) : cres expr :
   | MPeekSlice => peek_slice pair
   | MIdentifier => COk (EIdent (text w pair))
   | MString => literal pair 1 EStr
-  | MInsensitiveString => literal pair 2 EInsens
+  | MInsensitiveString =>
+    if fix_insens fx then
+      match m_children pair with
+      | lit :: _ => literal lit 1 EInsens                  (* pair.clone().into_inner().next().unwrap() : the `string` pair *)
+      | [] => CPanic
+      end
+    else literal pair 2 EInsens                            (* the WHOLE text `^ .. "…"`, then [2..len-1] *)
   | MRange =>
     match m_children pair with
     | c1 :: r1 =>
@@ -171,10 +202,12 @@ Definition terminal (rec : list mtree -> cres expr) (pair : mtree) : cres expr :
         | _ :: c2 :: _ =>
           match literal c2 1 EStr with
           | COk (EStr hi) => COk (ERange (range_cp lo) (range_cp hi))
+          | CErr k s e => CErr k s e
           | _ => CPanic
           end
         | _ => CPanic
         end
+      | CErr k s e => CErr k s e
       | _ => CPanic
       end
     | [] => CPanic
@@ -265,11 +298,18 @@ Definition pratt_stage (un : list mtree -> cres expr) (ts : list mtree) : cres e
   | Pratt.Syntax.OutOfFuel => CFuel
   end.
 
+(* fixes/C07-2: `if pairs.peek().map(|pair| pair.as_rule()) == Some(Rule::choice_operator) { pairs.next().unwrap(); }` *)
+Definition skip_bar (ts : list mtree) : list mtree :=
+  match ts with
+  | c0 :: cr => if is_rule MChoiceOperator c0 then cr else ts
+  | [] => []
+  end.
+
 (* fn consume_expr; one unit of fuel per nesting level of `expression` pairs *)
 Fixpoint consume_expr (fuel : nat) (ts : list mtree) : cres expr :=
   match fuel with
   | O => CFuel
-  | Datatypes.S f => pratt_stage (unaries_with (consume_expr f)) ts
+  | Datatypes.S f => pratt_stage (unaries_with (consume_expr f)) (if fix_bar fx then skip_bar ts else ts)
   end.
 
 (* the `.map(|pair| ..)` closure of consume_rules_with_spans followed by convert_rule *)
@@ -301,12 +341,15 @@ Definition consume_rule (fuel : nat) (p : mtree) : cres rule :=
             match r5 with
             | [] => CPanic
             | ex :: _ =>                                   (* expression *)
-              match m_children ex with
-              | [] => CPanic                               (* inner_nodes.peek().unwrap() *)
-              | c0 :: cr =>
-                let inner := if is_rule MChoiceOperator c0 then cr else c0 :: cr in
-                cmap (fun e => {| rname := text w id; rty := t; rexpr := e |}) (consume_expr fuel inner)
-              end
+              let mkrule := fun e => {| rname := text w id; rty := t; rexpr := e |} in
+              if fix_bar fx then cmap mkrule (consume_expr fuel (m_children ex))
+              else
+                match m_children ex with
+                | [] => CPanic                             (* inner_nodes.peek().unwrap() *)
+                | c0 :: cr =>                              (* "skip initial infix operators" *)
+                  let inner := if is_rule MChoiceOperator c0 then cr else c0 :: cr in
+                  cmap mkrule (consume_expr fuel inner)
+                end
             end
           end
         end
